@@ -395,7 +395,41 @@ def r4_reader(ctx, chk, rule="C11.4"):
         chk.violation(rule, f.where(), "the reader returns `%s`, not the evaluated dictionary" % show(ret)[:100], expected="the dict", found=show(ret)[:100], construct="read_dict_from_file return")
 
 
+def r5_manual_entry(ctx, chk, rule="C11.5"):
+    """create_sg_from_board hands write_robots length = number of rows and width = number of columns of the tables it passes."""
+    q = "stochastic_game_from_roborta_board.py::create_sg_from_board"
+    if not ctx.prog.has_func(q):
+        chk.undecided(rule, q, "manual entry point missing")
+        return
+    f = ctx.func(q)
+    sx = SymX(ctx, f, inline_depth=3, no_inline=("write_robots", "prob_to_str")).run()
+    wr = [e for e in sx.final.effects if e[1] == "call" and e[2][0] == "call" and e[2][1] == "write_robots"]
+    if len(wr) != 1:
+        chk.undecided(rule, f.where(), "write_robots call not found")
+        return
+    g = ctx.func("roberta_generator.py::write_robots")
+    args = dict(zip(g.params, wr[0][2][2]))
+    args.update({k: v for k, v in wr[0][2][3] if k})
+    tables = [("v", p) for p in f.params if p in ("moves", "rewards", "loose_tiles")]
+    rows = [("call", "len", (t,), ()) for t in tables]
+    cols = [("call", "len", (simp(("idx", t, C(0))),), ()) for t in tables]
+    L, W = args.get("length"), args.get("width")
+    if L in rows and W in cols:
+        chk.ok(rule, f.where(), "write_robots(length=%s, width=%s): rows and columns of the board that is passed" % (show(L), show(W)))
+    elif L in cols and W in rows:
+        chk.violation(rule, f.where(), "the board's dimensions are transposed: write_robots receives length=%s (the number of columns) and width=%s (the number of rows); "
+                      "non-square boards index out of range or are written wrongly" % (show(L), show(W)), expected="length=len(moves), width=len(moves[0])",
+                      found="length=%s, width=%s" % (show(L), show(W)), construct="create_sg_from_board transposed dimensions")
+    else:
+        chk.undecided(rule, f.where(), "dimensions passed to write_robots not recognised: length=%s, width=%s" % (show(L) if L else None, show(W) if W else None))
+    for t in ("moves", "rewards", "loose_tiles"):
+        if args.get(t) != ("v", t):
+            chk.violation(rule, f.where(), "write_robots receives `%s` as %s" % (show(args.get(t)) if args.get(t) else None, t), expected=t, found=show(args.get(t)) if args.get(t) else "none",
+                          construct="create_sg_from_board table %s" % t)
+
+
 def run(ctx, chk):
+    r5_manual_entry(ctx, chk)
     gts = r1_template(ctx, chk)
     r2_replace_chain(ctx, chk, gts)
     r3_wellformed(ctx, chk)
